@@ -215,6 +215,8 @@ type vxOp struct {
 	alive  uint64 // 0/1, kept as a number so that the specification does not fork paths
 }
 
+// The thorough tier (permuted map orders) needs more than the default 900 s budget on a loaded machine.
+//vx:max-seconds 2700
 func VxC14IndexSemantics() {
 	steps := 3
 	if vx.Thorough() {
